@@ -32,7 +32,7 @@ import sys
 from fractions import Fraction
 
 import vlib
-from checks.c07 import (fr_hex, parse_fr, hexfloat, flat, mat_of, scale_tol, gen_matrix, dyadic, case_json,
+from checks.c07 import (crash_text, fr_hex, parse_fr, hexfloat, flat, mat_of, scale_tol, gen_matrix, dyadic, case_json,
                         run_model_lines)
 
 PROPERTY = "C06"
@@ -343,7 +343,7 @@ def evaluate(ctx, exe, mexe, cases, st, record=True):
                 verdicts[i] = "skip"
                 ctx.unshown("the Eigen probe itself aborted: " + str(r["crashed"])[:200])
             else:
-                viol(i, "the implementation aborts / hangs on this input (%s): %s" % (kind, str(r["crashed"])[:500]))
+                viol(i, "the implementation aborts / hangs on this input (%s): %s" % (kind, crash_text(r["crashed"])))
             continue
         if r["X"] is not None:
             if kind == "EMB":
